@@ -242,6 +242,8 @@ def unit_compile_block(eng, context, base_settled, start_kind):
                 eng_.path.events.append(("error", "wrong-meta-operands"))
                 raise PyRaise(Exc("RecoverableError"))
             if k == "stop":
+                il = eng_.I.get("in_loop")
+                eng_.I["stopped_with"] = il["env"].lookup("data") if il else b""
                 raise PyRaise(Exc("CompilerStopIteration"))
             c, B = make_chunk(eng_, k, "i")
             return c
@@ -367,7 +369,10 @@ def unit_compile_block(eng, context, base_settled, start_kind):
             return
         # the function returned data: by I1 (established at loop exit or at the statement that stopped iteration) nothing more to prove here;
         # the per-iteration obligations below are issued from the loop body through the hooks
-        eng.prove("returns-the-accumulated-bytes", True)
+        if "stopped_with" in I:
+            eng.prove(".end(CompilerStopIteration)-returns-exactly-the-bytes-accumulated-before-it:the-rest-of-the-block-contributes-nothing", val is I["stopped_with"])
+        else:
+            eng.prove("returns-the-accumulated-bytes", True)
 
     r = verify(eng, name, run, post, func="compiler.Compiler.compile_block")
     for o in r["obligations"]:
